@@ -257,10 +257,47 @@ def flagged_shape_cases(ctx, rng):
                     ctx.case((fmt, n, pattern, interp), nontrivial=True, branch="flagged-shape/%s" % pattern)
 
 
+def long_pass_case(ctx, rng):
+    """One LONG full-resolution pass (8193 lines, an odd number beyond 2^13; ~130 MB) with interpolation on: the tie-point
+    columns of EVERY line - the last ones included - return the file's words."""
+    fmt, n = "klmLac", 8193
+    tp = timesgen.TimePass(fmt, list(range(1, n + 1)), ydm_to_ms(2002, 187, 40000000))
+    b = tp.build(ctx, rng)
+    ii, cc = np.arange(n, dtype=float)[:, None], np.arange(51, dtype=float)[None, :]
+    b.lons = -100.0 + 0.004 * ii + 0.25 * cc            # a smooth track that stays away from the poles and the date line
+    b.lats = 50.0 * np.sin(ii / n * np.pi * 1.6) + 0.01 * cc
+    data = b.tobytes()
+    r = filegen.reader_class(fmt)(tle_dir=filegen.tle_dir(ctx), tle_name="TLE_%(satname)s.txt", interpolate_coords=True, adjust_clock_drift=False)
+    r.read(b.dsname, fileobj=io.BytesIO(data))
+    del data
+    with warnings.catch_warnings():
+        warnings.simplefilter("ignore")
+        lons, lats = r.get_lonlat()
+    lons, lats = np.asarray(lons), np.asarray(lats)
+    payload = {"fmt": fmt, "n": n, "stream": "long-pass"}
+    if lons.shape != (n, 2048):
+        ctx.violation("%s, %d lines: shape %s" % (fmt, n, lons.shape), payload, cls="shape:long")
+        return
+    tcols = 24 + 40 * np.arange(51)
+    wl, wa = np.round(b.lons * 1e4) / 1e4, np.round(b.lats * 1e4) / 1e4
+    dl = np.abs(lons[:, tcols] - wl)
+    dl = np.minimum(dl, 360.0 - dl)
+    da = np.abs(lats[:, tcols] - wa)
+    bad = np.nonzero((np.nan_to_num(dl, nan=9.0).max(axis=1) > 1e-6) | (np.nan_to_num(da, nan=9.0).max(axis=1) > 1e-6))[0]
+    if len(bad):
+        i = int(bad[0])
+        ctx.violation("%s pass of %d lines, interpolation on: tie points not reproduced on %d line(s), first line index %d: returned "
+                      "(%s, %s), the file says (%.4f, %.4f)" % (fmt, n, len(bad), i, lons[i, tcols[0]], lats[i, tcols[0]], wl[i, 0], wa[i, 0]),
+                      payload, cls="tie-columns-long")
+    ctx.case((fmt, "long", n), nontrivial=True, branch="long-pass")
+
+
 def run(ctx):
     rng = ctx.rng
     drv = []
     flagged_shape_cases(ctx, rng)
+    if ctx.thorough or getattr(ctx, "escalated", False):
+        long_pass_case(ctx, rng)
     for k in range(ctx.n(150, 6000)):
         tie_case(ctx, rng, k, drv)
     for k in range(ctx.n(20, 400)):
